@@ -251,6 +251,56 @@ theorem maskTopWord_spec (ws : List Nat) (width : Nat) (hg : Good ws (wordsFor w
       rw [← hw] at this
       exact (Nat.mod_eq_of_lt this).symm
 
+theorem modifyLast_id : ∀ ws : List Nat, modifyLast id ws = ws
+  | [] => rfl
+  | [_] => rfl
+  | a :: b :: ws => by simp only [modifyLast, modifyLast_id (b :: ws)]
+
+theorem modifyLast_congr (f g : Nat → Nat) : ∀ ws : List Nat, (∀ w ∈ ws, f w = g w) →
+    modifyLast f ws = modifyLast g ws
+  | [], _ => rfl
+  | [a], h => by simp [modifyLast, h a (by simp)]
+  | a :: b :: ws, h => by
+    simp only [modifyLast]
+    rw [modifyLast_congr f g (b :: ws) (fun w hw => h w (by simp [List.mem_cons] at hw ⊢; right; exact hw))]
+
+/-- `write_words` masks exactly like `mask_top_word`: on a port-sized `u64` buffer the two coincide
+(in particular when `width` is a multiple of 64 the top word is kept whole). -/
+theorem writeWordsBuf_eq_maskTopWord (ws : List Nat) (width : Nat) (hg : Good ws (wordsFor width)) :
+    writeWordsBuf ws width = maskTopWord ws width := by
+  obtain ⟨hl, hlt⟩ := hg
+  unfold writeWordsBuf maskTopWord
+  dsimp only
+  rw [List.take_of_length_le (Nat.le_of_eq hl)]
+  by_cases h0 : width = 0
+  · subst h0
+    simp only [if_true]
+    apply modifyLast_congr
+    intro w _
+    simp [wordsFor]
+  · simp only [h0, if_false]
+    have h1 := wordsFor_ge width
+    have h2 := wordsFor_tight width (Nat.pos_of_ne_zero h0)
+    by_cases hrem : width % 64 ≠ 0
+    · simp only [hrem, ne_eq, not_false_eq_true, if_true]
+      have hr64 : width % 64 < 64 := Nat.mod_lt _ (by decide)
+      have htb : width - 64 * (wordsFor width - 1) = width % 64 := by
+        have := Nat.div_add_mod width 64; omega
+      rw [htb, if_neg (by omega), shift_mask _ (Nat.pos_of_ne_zero hrem) hr64, Nat.one_shiftLeft]
+    · have hrem' : width % 64 = 0 := by omega
+      simp only [hrem', ne_eq, not_true_eq_false, if_false]
+      have htb : width - 64 * (wordsFor width - 1) = 64 := by
+        have := Nat.div_add_mod width 64; omega
+      rw [htb, if_pos (Nat.le_refl 64)]
+      -- `last & u64::MAX = last`
+      have hid : modifyLast (fun last => last &&& (two64 - 1)) ws = modifyLast id ws := by
+        apply modifyLast_congr
+        intro w hw
+        have : two64 - 1 = 2 ^ 64 - 1 := by decide
+        rw [this, Nat.and_two_pow_sub_one_eq_mod, ← two64_eq]
+        exact Nat.mod_eq_of_lt (hlt w hw)
+      rw [hid, modifyLast_id]
+
 theorem and_widthMask (x w : Nat) (hw : w ≤ 64) : x &&& widthMask w = x % 2 ^ w := by
   unfold widthMask
   split
